@@ -13,7 +13,7 @@ Open Scope Z_scope.
 (* which variant of the code the model describes: [pinned] = /repo HEAD.  ONE-LINE SWITCH: after
    notes/C07.fix-1.diff (scalar assignment) and fix-3.diff (string_array of empty strings) are committed,
    set the corresponding flag to false (both: [repaired]). *)
-Definition current : variant := pinned.
+Definition current : variant := repaired.
 
 Inductive iobs :=
 | IV (kind encid : Z) (txt raw : list (list Z))    (* kind 0 ragged / 1 flat / 2 character; flat+char as one row *)
@@ -119,7 +119,11 @@ Fixpoint model_steps (encid : Z) (v : value) (saved : option value) (steps : lis
       obs_matches encid true ob (i_obs st)                  (* raw codes, masks, strings, exception class *)
       && obs_matches encid false (dec_obs ob) (i_obs st)    (* and the decoded text *)
       && match i_op st with Copy => true | _ => saved_matches dec_value saved (i_orig st) end
-      && model_steps encid v' saved' r
+      && match ob with
+         | ORaise => true      (* the code at HEAD raised (a finding): the remaining steps were generated for the
+                                  state the step should have produced, they are not defined for the actual one *)
+         | _ => model_steps encid v' saved' r
+         end
   end.
 
 Definition model_ok (c : case) : bool :=
